@@ -59,6 +59,7 @@ func checkC14(c *Ctx, r *Report) {
 		"R3 every acquisition is released on every exit of the acquiring function; no release without acquisition",
 		"R5 functions reachable from Destroy/stop contain no blocking operation (only close(), slice writes, bounded leaf locks)",
 		"R6 no lock may be held at the single-flight rendezvous or at an upstream send",
+		"R8 a failed TryLock of a class the caller may hold itself is given up: the failure branch neither repeats the TryLock on the same lock nor feeds the exit test of a loop around it",
 		"R7 no blocking channel send/receive is synchronously reachable from request handling, cache API or the config-update API",
 	}
 	r.NotDec = []string{"liveness under network I/O, starvation, goroutine leaks", "deadlocks not caused by sync.Mutex/RWMutex or channels of the module", "shard count 0 (C18)"}
@@ -133,6 +134,92 @@ func checkC14(c *Ctx, r *Report) {
 	}
 	r.Floor("C14.R1", nCache, 16, "lock acquisitions in package cache")
 	r.Floor("C14.R1", nTry, 1, "TryLock acquisitions (janitor)")
+
+	// ---- R8: a failed TryLock is given up, never retried until it succeeds, when the same goroutine
+	// may already hold a lock of that class (the retry then spins forever: a non-blocking deadlock)
+	nTry8 := 0
+	for i := range li.Ops {
+		op := &li.Ops[i]
+		if !op.kind.acquire() || op.kind.blocking() {
+			continue
+		}
+		call, ok := op.in.(*ssa.Call)
+		if !ok {
+			continue
+		}
+		nTry8++
+		f := op.fn
+		key := fmt.Sprintf("%s: failed %s %s #%d is not retried", fnKey(f), kindName(op.kind), op.class, ordinalOf(li, op))
+		held := li.HeldMay(op.in)
+		if !held[op.class] {
+			r.Ok("C14.R8", key, c.InstrPos(op.in), "no lock of this class can be held by the caller here: a retry could only wait for other goroutines")
+			continue
+		}
+		// the branch on the TryLock result
+		var tryIf *ssa.If
+		failIdx := 1
+		for _, blk := range f.Blocks {
+			if iff, ok := blk.Instrs[len(blk.Instrs)-1].(*ssa.If); ok {
+				if cv, positive := stripNot(iff.Cond); cv == ssa.Value(call) {
+					tryIf = iff
+					if !positive {
+						failIdx = 0
+					}
+				}
+			}
+		}
+		if tryIf == nil {
+			r.Undecided("C14.R8", key, c.InstrPos(op.in), "the result of TryLock is not tested by a plain branch; what happens on failure is not decided")
+			continue
+		}
+		failBlk := tryIf.Block().Succs[failIdx]
+		// can the failure edge come back to this TryLock at all?
+		back := len(walkFrom(pos{failBlk, 0}, nil, func(in ssa.Instruction) bool { return in == ssa.Instruction(call) }, nil)) > 0
+		var bad []string
+		if back {
+			// (a) the lock tried next time round is a different one: its operand is recomputed inside the cycle
+			inCycle := func(b *ssa.BasicBlock) bool {
+				if len(b.Instrs) == 0 {
+					return false
+				}
+				first := b.Instrs[0]
+				fromFail := b == failBlk || len(walkFrom(pos{failBlk, 0}, nil, func(in ssa.Instruction) bool { return in == first }, nil)) > 0
+				return fromFail && (b == call.Block() || reachableInstr(first, call, nil))
+			}
+			recv := callArgs(call)[0]
+			if def, ok := resolveVal(recv).(ssa.Instruction); !ok || !inCycle(def.Block()) {
+				bad = append(bad, "the failed TryLock is repeated on the same lock (its operand is not recomputed before the retry)")
+			}
+			// (b) no exit test of a loop around the TryLock depends on something done only on the failure branch
+			for _, blk := range f.Blocks {
+				iff, ok := blk.Instrs[len(blk.Instrs)-1].(*ssa.If)
+				if !ok || iff == tryIf || !inCycle(blk) {
+					continue
+				}
+				leaves := false
+				for _, sc := range blk.Succs {
+					if !inCycle(sc) && sc != call.Block() {
+						leaves = true
+					}
+				}
+				if !leaves {
+					continue
+				}
+				dep := derivesFrom(iff.Cond, func(v ssa.Value) bool {
+					in, ok := v.(ssa.Instruction)
+					if !ok || in.Parent() != f || in.Block() == nil {
+						return false
+					}
+					return in.Block() == failBlk && len(failBlk.Preds) == 1 || (in.Block() != tryIf.Block() && onlyViaEdge(f, in, tryIf.Block(), failIdx))
+				})
+				if dep {
+					bad = append(bad, "the loop around it continues as long as entries whose TryLock failed remain (exit test at "+c.InstrPos(iff)+" depends on the failure branch)")
+				}
+			}
+		}
+		r.Check(len(bad) == 0, "C14.R8", key, c.InstrPos(op.in), "on failure the entry is skipped; no loop condition depends on the failure branch", "TryLock on "+string(op.class)+" is retried until it succeeds although the caller may hold "+string(op.class)+" itself [may-held="+held.String()+"]: "+strings.Join(bad, "; ")+" — a store that evicts under its own shard lock spins forever")
+	}
+	r.Floor("C14.R8", nTry8, 1, "TryLock sites")
 
 	// ---- R2: nothing waits while a map lock is held
 	type agg struct {
